@@ -404,6 +404,17 @@ Inductive gm_result :=
 | GmNone                     (* nil, nil *)
 | GmErr.
 
+(* the name under which a native is found in its prototype / the root frame *)
+Definition native_name (n : native) : bytes :=
+  match n with
+  | NPrintf => bs "printf" | NJson => bs "json" | NNum => bs "num"
+  | NArrLength | NObjLength | NStrLength => bs "length"
+  | NPush => bs "push" | NPop => bs "pop" | NPopFirst => bs "popfirst"
+  | NContains => bs "contains" | NSort => bs "sort" | NPluck => bs "pluck"
+  | NSplit => bs "split" | NLower => bs "lower" | NUpper => bs "upper"
+  | NFloor => bs "floor" | NCeil => bs "ceil" | NRound => bs "round"
+  end.
+
 (* prototype.GetMember(member): the prototype is an object without a prototype *)
 Definition proto_get (tbl : bytes -> option native) (m : value) : gm_result :=
   match m with
